@@ -800,7 +800,8 @@ class Frame:
         if t is None:
             return False
         k = t.key()
-        return k == "self" or k == SELF.key() or k.startswith("new:")
+        # (a caught exception — ``except E as e`` — is an exception object)
+        return k == "self" or k == SELF.key() or k.startswith("new:") or k.startswith("exc-of(")
 
     def peek(self, e: ast.expr, p: Path) -> Optional[Term]:
         """Term of a side-effect-free name/attribute expression, else None."""
@@ -1097,6 +1098,7 @@ class Frame:
                 out.append(q)
                 continue
             elems = iter_elems(it)
+            self.ev(q, "iter", target=it, line=st.lineno, text=ast.unparse(st.iter)[:80])
             if isinstance(it, Seq) and not it.items:
                 elems = []                      # a known-empty iterable: the body never runs
             is_whole = len(elems) == 1 and not early and not isinstance(it, Seq) and not getattr(it, "partial", False)
@@ -1345,6 +1347,9 @@ class Frame:
                 if len(terms) == 1 and isinstance(terms[0], New):
                     terms[0].global_name = key
                     cache[key] = terms[0]
+        elif isinstance(init, ast.Constant) and isinstance(init.value, (str, int, bool, bytes)) and _never_mutated(self.repo, module, name):
+            # a named literal (``_DUNDER = "__"``) is that literal wherever it is read
+            cache[key] = Const(init.value)
         elif isinstance(init, (ast.Dict, ast.Tuple)) and (init.keys if isinstance(init, ast.Dict) else init.elts) \
                 and self.depth < self.ctx.max_depth and _never_mutated(self.repo, module, name):
             # a table written once at import (``_HANDLERS = {Request: handler, …}``): its display is its value
@@ -1385,6 +1390,9 @@ class Frame:
             if attr in self.selfattrs:
                 return [(p, self.selfattrs[attr])]
             return [(p, Opaque(f"{self.cls.name if self.cls else '?'}.{attr}"))]
+        if attr in getattr(self.ctx, "track_reads", ()):
+            # a rule asked where this attribute of the object is read (which locks are held there)
+            self.ev(p, "read", text="self." + attr, target=self.child(attr), line=getattr(node, "lineno", 0))
         return [(p, self.child(attr))]
 
     def get_attr(self, t: Term, attr: str, p: Path, node) -> List[Tuple[Path, Term]]:
@@ -1723,6 +1731,7 @@ class Frame:
             it = self.peek(g.iter, p)
             if isinstance(it, Seq) and not any(isinstance(x, Sym) and x.head == "star" for x in it.items):
                 saved = dict(p.env)
+                self.ev(p, "iter", target=it, line=getattr(g.iter, "lineno", 0), text=ast.unparse(g.iter)[:80])
                 cur = [(p, [])]
                 for item in it.items:
                     nxt = []
@@ -1768,6 +1777,7 @@ class Frame:
                         out_.append((q2, acc))
                         continue
                     cur = [(q2, acc)]
+                    self.ev(q2, "iter", target=it, line=getattr(g.iter, "lineno", 0), text=ast.unparse(g.iter)[:80])
                     if idx == 0 and len(e.generators) == 1:
                         src_of_comp.append(it)
                     comp_whole = not isinstance(it, Seq) and not getattr(it, "partial", False)
@@ -2009,6 +2019,10 @@ class Frame:
                             setattr(tv2, a_, getattr(tv, a_))
                     tv = tv2         # the values view: iterating it yields the elements, not the keys
                 return [(p, tv)]
+            if name in ("items", "keys", "values") and not pos and display_items(callee.target) is not None:
+                # a dictionary display with distinct constant keys: its views are exact sequences, in display order
+                its = display_items(callee.target)
+                return [(p, Seq([Seq([k_, v_]) if name == "items" else (k_ if name == "keys" else v_) for k_, v_ in its]))]
             if name == "items" and not pos:
                 return [(p, Sym("call:items", (callee.target,)))]
             if name in XOPS:
@@ -2175,7 +2189,7 @@ class Frame:
                 return [(p, t)]
             return [(p, Sym(short, (t,)))]
         if short in ("sorted", "reversed") and pos:
-            return [(p, Sym("reordered:" + short, (pos[0],)))]
+            return [(p, Sym("reordered:" + short, (pos[0],) + tuple(Sym("kw:" + k, (v,)) for k, v in sorted(kw.items()))))]
         if name in ("functools.partial",) or short == "partial" and callee.head == "ext":
             if pos and isinstance(pos[0], Fn):
                 f0 = pos[0]
@@ -2303,6 +2317,13 @@ class Frame:
                 return cur
             init = pos[2] if len(pos) == 3 else Sym("first", (xs,))
             return self.synth_block("acc = init\nfor _s_x in xs:\n    acc = f(acc, _s_x)\n", {"f": f, "xs": xs, "init": init}, "acc", p, node)
+        if short == "sum" and mod in ("", "builtins") and len(pos) == 2 and isinstance(pos[0], Seq) and isinstance(pos[1], (New, Child)) \
+                and not any(isinstance(x, Sym) and x.head == "star" for x in pos[0].items):
+            # sum([a, b, c], start) over node terms is ((start + a) + b) + c
+            acc = pos[1]
+            for it in pos[0].items:
+                acc = Sym("binop:Add", (acc, it))
+            return [(p, acc)]
         if name == "itertools.islice" and len(pos) == 2 and isinstance(pos[0], (Coll, Child)):
             src = pos[0]
             t2 = Coll(src.elem, src.keyterm) if isinstance(src, Coll) else Child(src.path)
@@ -2722,6 +2743,23 @@ def _only_reraises(h: ast.ExceptHandler) -> bool:
     return all(isinstance(st, (ast.Expr, ast.Assign, ast.AugAssign, ast.AnnAssign, ast.Pass, ast.Delete)) for st in h.body[:-1])
 
 
+def display_items(t: Term) -> Optional[List[Tuple[Term, Term]]]:
+    """(key, value) pairs of a dictionary display whose keys are distinct constants or classes, in order, else None."""
+    if not (isinstance(t, Sym) and t.head == "dict" and t.args):
+        return None
+    out: List[Tuple[Term, Term]] = []
+    seen = set()
+    for it in t.args:
+        if not (isinstance(it, Sym) and it.head == "item" and len(it.args) == 2):
+            return None
+        k = it.args[0]
+        if not (isinstance(k, Const) or (isinstance(k, Sym) and k.head == "class")) or k.key() in seen:
+            return None
+        seen.add(k.key())
+        out.append((k, it.args[1]))
+    return out
+
+
 def known_dict(t: Term) -> Optional[Dict[str, Term]]:
     """Entries of a dictionary term whose keys are all constant strings (later entries win), else None."""
     if not (isinstance(t, Sym) and t.head == "dict"):
@@ -2838,6 +2876,9 @@ def iter_elems(it: Term) -> List[Term]:
         return items or [Opaque("empty")]
     if isinstance(it, Sym) and it.head.startswith("reordered:"):
         return iter_elems(it.args[0])
+    if isinstance(it, Sym) and it.head in ("call:items", "call:values", "call:keys") and it.args and display_items(it.args[0]) is not None:
+        # views of a dictionary display with distinct constant keys are exact, in display order
+        return [Sym("item", (k_, v_)) if it.head == "call:items" else (v_ if it.head == "call:values" else k_) for k_, v_ in display_items(it.args[0])]
     if isinstance(it, Sym) and it.head in ("call:items", "call:values") and it.args:
         base = it.args[0]
         if isinstance(base, Child) and getattr(base, "mapping", False):
@@ -2863,6 +2904,11 @@ def iter_elems(it: Term) -> List[Term]:
             pos_t = Sym("binop:Add", (pos_t, start))
         return [Seq([pos_t, el]) for el in iter_elems(it.args[0])]
     if isinstance(it, Sym) and it.head == "call:zip" and len(it.args) >= 2 and not any(isinstance(a, Sym) and a.head.startswith("kw:") for a in it.args):
+        cols = [iter_elems(a) for a in it.args]
+        if all(len(c) == 1 for c in cols):
+            return [Seq([c[0] for c in cols])]
+    if isinstance(it, Sym) and it.head in ("call:itertools.product", "call:product") and len(it.args) >= 2 and not any(isinstance(a, Sym) and (a.head.startswith("kw:") or a.head == "star") for a in it.args):
+        # every combination of one element of each: as abstract elements, one of each
         cols = [iter_elems(a) for a in it.args]
         if all(len(c) == 1 for c in cols):
             return [Seq([c[0] for c in cols])]
